@@ -235,8 +235,11 @@ def main():
     rc = 0
     try:
         lines = parse_dump_file(dump_file, header_file, string_file)
+        # A '%c' trace argument can be any code point, including ones the
+        # output encoding cannot represent; show those as escapes.
+        encoding = sys.stdout.encoding or 'utf-8'
         for line in lines:
-            print(line)
+            print(line.encode(encoding, 'backslashreplace').decode(encoding))
     except Exception as e:
         print(f'Error: {str(e)}', file=sys.stderr)
         rc = 1
